@@ -68,7 +68,7 @@ func init() {
 			return nil
 		},
 		"vObserve": func(m *Machine, fr *frame, fn *ssa.Function, a []value) value {
-			m.observes = append(m.observes, obsRec{Tag: concStr(a[0], "vObserve"), Val: a[1]})
+			m.observes = append(m.observes, obsRec{Tag: concStr(a[0], "vObserve"), Val: m.snapshot(a[1])})
 			return nil
 		},
 		"vEq": func(m *Machine, fr *frame, fn *ssa.Function, a []value) value {
@@ -96,6 +96,15 @@ func init() {
 				cs = append(cs, m.st.Not(m.st.Eq(b, c)))
 			}
 			return m.unsym(m.st.And(cs...), types.Bool)
+		},
+		"vContains": func(m *Machine, fr *frame, fn *ssa.Function, a []value) value {
+			bs, _ := m.strTerms(a[0])
+			sub := concStr(a[1], "vContains")
+			var alts []*sym.Term
+			for i := 0; i+len(sub) <= len(bs); i++ {
+				alts = append(alts, m.matchAt(bs, i, sub))
+			}
+			return m.unsym(m.st.Or(alts...), types.Bool)
 		},
 		"vIsNative": func(m *Machine, fr *frame, fn *ssa.Function, a []value) value { return false },
 		"vSetTokens": func(m *Machine, fr *frame, fn *ssa.Function, a []value) value {
@@ -172,6 +181,40 @@ func (m *Machine) vAssert(id string, c value) {
 	panic(pathEnd{kind: "assert-fail", msg: id})
 }
 
+// snapshot copies the containers of a tree (leaves are immutable) so that an
+// observation shows the value as it was when it was observed.
+func (m *Machine) snapshot(v value) value {
+	m.walk++
+	defer func() { m.walk-- }()
+	if m.walk > 200 {
+		return "<cyclic>"
+	}
+	switch x := v.(type) {
+	case iface:
+		return iface{t: x.t, v: m.snapshot(x.v)}
+	case *symMap:
+		if x == nil {
+			return x
+		}
+		c := &symMap{keyT: x.keyT, id: x.id}
+		for _, e := range x.live() {
+			c.ents = append(c.ents, mapEnt{k: e.k, v: m.snapshot(e.v)})
+		}
+		c.n = len(c.ents)
+		return c
+	case []value:
+		if x == nil {
+			return x
+		}
+		c := make([]value, len(x))
+		for i, e := range x {
+			c[i] = m.snapshot(e)
+		}
+		return c
+	}
+	return v
+}
+
 // ---- deep equality as one formula ----
 
 func unwrapAny(v value) value {
@@ -185,6 +228,11 @@ func unwrapAny(v value) value {
 // (nil and empty containers differ); strict=false identifies them
 // (JSON equality), which is what harness oracles want.
 func (m *Machine) deepEqTerm(a, b value, strict bool) *sym.Term {
+	m.walk++
+	defer func() { m.walk-- }()
+	if m.walk > 200 {
+		unsupported("deep equality on a self-containing structure")
+	}
 	st := m.st
 	ai, aok := a.(iface)
 	bi, bok := b.(iface)
@@ -326,6 +374,11 @@ func (m *Machine) disjoint(a, b value) bool {
 // ---- rendering values under a model (observations, samples) ----
 
 func (m *Machine) render(v value, model sym.Model, memo map[int]sym.Val) string {
+	m.walk++
+	defer func() { m.walk-- }()
+	if m.walk > 200 {
+		return "<cyclic>"
+	}
 	ev := func(t *sym.Term) sym.Val { return sym.Eval(t, model, memo) }
 	switch v := v.(type) {
 	case nil:
